@@ -3,10 +3,15 @@ from metapype.model.node import Node
 
 
 def preorder(n):
+    """pre-order, every node object once (terminates on cyclic or shared structures produced by a broken library)"""
     out = []
+    seen = set()
     st = [n]
     while st:
         x = st.pop()
+        if id(x) in seen:
+            continue
+        seen.add(id(x))
         out.append(x)
         st.extend(reversed(x.children))
     return out
